@@ -6,6 +6,7 @@ import JumanjiModel.Env.Game2048.Lemmas
 import JumanjiModel.Env.Game2048.Bounds
 import JumanjiModel.Env.Game2048.BoardLemmas
 import JumanjiModel.Env.Game2048.EpisodeLemmas
+import JumanjiModel.Env.Game2048.ResetLemmas
 open Jm Game2048
 
 namespace Props.C09
@@ -148,6 +149,29 @@ theorem game2048_conserved (n : Nat) (s : State) (a : Nat) (d : Draw) (ha : a < 
 theorem game2048_run_consistent (n : Nat) (s : State) (ads : List (Nat × Draw)) (hc : Consistent n s)
     (hv : ValidPlay s ads) : Consistent n (runState s ads) := Game2048.run_consistent n s ads hc hv
 
+/-- every spawned tile, cell by cell: for a valid draw (the support of `_add_random_cell`) the chosen cell WAS empty
+on the board the tile is added to, afterwards it holds the drawn exponent (1 or 2), and no other cell changes -/
+theorem game2048_spawn_cellwise (b : Board) (d : Draw) (hs : Square b) (hd : validDraw b d) :
+    get b (d.idx / b.length) (d.idx % b.length) = 0 ∧ (d.val = 1 ∨ d.val = 2) ∧
+    ∀ i j, get (addRandomCell b d) i j =
+      if i = d.idx / b.length ∧ j = d.idx % b.length then d.val else get b i j :=
+  ⟨hd.2.1, hd.2.2, Game2048.addRandomCell_get b d hs hd.1⟩
+
+/-- … along play: after a legal move from a consistent state the successor board is the slid board plus exactly the
+drawn tile, which lands on a cell that was empty AFTER the move and has exponent 1 or 2 -/
+theorem game2048_step_spawn (n : Nat) (s : State) (a : Nat) (d : Draw) (ha : a < 4) (hc : Consistent n s)
+    (hl : legal s.board a) (hd : validDraw (slideBoard s.board (Dir.ofAction a)) d) :
+    get (slideBoard s.board (Dir.ofAction a)) (d.idx / n) (d.idx % n) = 0 ∧ (d.val = 1 ∨ d.val = 2) ∧
+    ∀ i j, get (step s a d).1.board i j =
+      if i = d.idx / n ∧ j = d.idx % n then d.val else get (slideBoard s.board (Dir.ofAction a)) i j := by
+  have hs := Game2048.consistent_square hc
+  have hlen : (slideBoard s.board (Dir.ofAction a)).length = n := by
+    rw [Game2048.slideBoard_length]; exact hc.1.1
+  have h := game2048_spawn_cellwise _ d (Game2048.slideBoard_square _ _) hd
+  rw [hlen] at h
+  rw [Game2048.step_board_legal s a d ha hs (Game2048.consistent_mask hc) hl]
+  exact h
+
 -- the hypotheses are satisfiable: 3×3 reset with a 4-tile in the middle, then Up with a 2 spawned at cell 8
 example : validDraw (tab 3 (fun _ _ => 0)) ⟨4, 2⟩ ∧ Consistent 3 (reset 3 ⟨4, 2⟩).1 ∧
     legal (reset 3 ⟨4, 2⟩).1.board 0 ∧
@@ -222,6 +246,46 @@ example :
     boardPot (runState (reset 2 ⟨0, 1⟩).1 ads).board = 16 ∧ spawnPot (reset 2 ⟨0, 1⟩).1 ads = 4 := by
   decide +kernel
 end Props.C08
+
+namespace Props.C10
+/-- the TRANSLITERATED reset (`_generate_board`: zeros, then `_add_random_cell`; the draw is the pair (flat cell index,
+exponent)): for EVERY board size and EVERY valid draw (a cell of the board, exponent 1 or 2) the initial board is
+`board_size × board_size`, holds exactly one non-empty cell — the drawn one, with the drawn exponent 1 or 2 —, score
+and step count are 0, and the action mask stored in the reset state (and shown in the reset observation) equals the L2
+legality of the four moves.  `game2048.instance` replays `reset` on the draw read off every real reset state. -/
+theorem game2048_reset_cert (n : Nat) (d : Draw) (hd : validDraw (tab n (fun _ _ => 0)) d) :
+    Shaped (reset n d).1.board n ∧ tileCount (reset n d).1.board = 1 ∧
+    (∀ i j, i < n → j < n →
+      get (reset n d).1.board i j = if i = d.idx / n ∧ j = d.idx % n then d.val else 0) ∧
+    (d.val = 1 ∨ d.val = 2) ∧ (reset n d).1.score = 0 ∧ (reset n d).1.stepCount = 0 ∧
+    (reset n d).1.actionMask = legalMask (reset n d).1.board ∧
+    (reset n d).2.obs.actionMask = legalMask (reset n d).1.board ∧
+    (reset n d).2.stepType = .first ∧ InstanceOK n (reset n d).1 := by
+  have h := Game2048.reset_instanceOK n d hd
+  exact ⟨h.1, h.2.1, fun i j hi hj => Game2048.reset_cells n d hd i j hi hj, hd.2.2, rfl, rfl, h.2.2.2.2.2,
+    h.2.2.2.2.2, rfl, h⟩
+
+/-- the certificate the driver evaluates on every real reset state gives what is advertised and makes the state a
+consistent start state for C07 -/
+theorem game2048_instance_cert (n : Nat) (s : State) (h : InstanceOK n s) :
+    Shaped s.board n ∧ tileCount s.board = 1 ∧ (boardSum s.board = 2 ∨ boardSum s.board = 4) ∧ s.score = 0 ∧
+    s.actionMask = legalMask s.board ∧ Consistent n s := by
+  obtain ⟨h1, h2, h3, h4, h5, h6⟩ := h
+  refine ⟨h1, h2, h3, h4, h6, h1, ?_, h6, ?_, fun _ => ⟨h3, h4⟩⟩
+  · rcases h3 with e | e <;> rw [e] <;> omega
+  · rw [h4]; exact Rat.le_refl
+
+/-- conversely the certificate is exactly the range of the transliterated `reset`: a state passes it iff it is
+`reset n d` for a valid draw `d` (the one read off its board: position and exponent of its one tile) -/
+theorem game2048_instance_iff_reset (n : Nat) (s : State) :
+    InstanceOK n s ↔ ∃ d, validDraw (tab n (fun _ _ => 0)) d ∧ (reset n d).1 = s :=
+  ⟨fun h => ⟨drawOf s.board, Game2048.instance_is_reset n s h⟩,
+   fun ⟨d, hd, e⟩ => e ▸ Game2048.reset_instanceOK n d hd⟩
+
+example : validDraw (tab 3 (fun _ _ => 0)) ⟨5, 2⟩ ∧ (reset 3 ⟨5, 2⟩).1.board = [[0, 0, 0], [0, 0, 2], [0, 0, 0]] ∧
+    drawOf (reset 3 ⟨5, 2⟩).1.board = ⟨5, 2⟩ ∧ InstanceOK 3 (reset 3 ⟨5, 2⟩).1 ∧
+    ¬ validDraw (tab 3 (fun _ _ => 0)) ⟨9, 1⟩ ∧ ¬ validDraw (tab 3 (fun _ _ => 0)) ⟨0, 3⟩ := by decide +kernel
+end Props.C10
 
 namespace Props.C12
 /-- the observation of a step is the documented view (board, legality of the four moves) of the successor -/
